@@ -964,6 +964,46 @@ pub fn run(tables: &Tables, input: &str, opts: RunOpts) -> Vec<Value> {
     log.take()
 }
 
+/// One parser object for a whole sequence of inputs (a fresh token stream each): returns per input
+/// whether the parse succeeded.  State carried over from an earlier (failed) run would show up as a
+/// verdict that differs from the one a fresh parser gives.
+pub fn run_reuse(tables: &Tables, inputs: &[String], max_depth: usize) -> Vec<bool> {
+    let mf: &'static _ = Box::leak(Box::new(match_fn(tables.scanner.intervals)));
+    let mut out = Vec::new();
+    enum P<'t> {
+        LL(LLKParser<'t>),
+        LR(LRParser<'t>),
+    }
+    let mut p = match &tables.p {
+        PTables::LL(t) => {
+            let mut p = LLKParser::new(t.start, t.automata, t.productions, tables.terminal_names, tables.non_terminals);
+            p.set_max_parsing_depth(max_depth);
+            P::LL(p)
+        }
+        PTables::LR(t) => {
+            let mut p = LRParser::new(t.start, t.table, t.productions, tables.terminal_names, tables.non_terminals);
+            p.set_max_parsing_depth(max_depth);
+            P::LR(p)
+        }
+    };
+    for input in inputs {
+        let log: Log = Rc::new(RefCell::new(Vec::new()));
+        let mut tree = RecTree { log: log.clone() };
+        let mut acts = RecActions { log: log.clone(), count: 0 };
+        let scanner_impl = Rc::new(RefCell::new(scnr2::ScannerImpl::new(tables.scanner.modes)));
+        let Ok(stream) = TokenStream::new_with_skip_tokens(input, "in.txt", scanner_impl, mf, tables.max_k, tables.skip_tokens) else {
+            out.push(false);
+            continue;
+        };
+        let res = match &mut p {
+            P::LL(p) => p.parse_into(&mut tree, stream, &mut acts),
+            P::LR(p) => p.parse_into(&mut tree, stream, &mut acts),
+        };
+        out.push(res.is_ok());
+    }
+    out
+}
+
 /// Tokenise only: all tokens the `TokenStream` delivers (skip tokens included) with the given
 /// lookahead size and consumption schedule (`eager` = look ahead k-1 before each consume).
 pub fn tokenize(tables: &Tables, input: &str, k: usize, schedule: u8) -> Result<Vec<Value>> {
